@@ -73,6 +73,7 @@ def tname(t) -> str:
         "elt": "sset_elt",
         "atom": "sset_atom",
         "lelt": "(list sset_elt)",
+        "lstr": "(list string)",
     }[t]
 
 
@@ -183,6 +184,11 @@ class FnTranslator:
                 if isinstance(td, tuple) and td[0] == "dict" and tk == "str":
                     s = f"(dict_mem {d} {k})"
                     return (s if isinstance(op, ast.In) else f"(negb {s})"), "bool"
+                # ":" in x: a one-character needle in a str
+                if td == "str" and isinstance(l, ast.Constant) and isinstance(l.value, str) and len(l.value) == 1 \
+                        and 32 <= ord(l.value) < 127:
+                    s = f"(str_contains1 (Ascii.ascii_of_nat {ord(l.value)}) {d})"
+                    return (s if isinstance(op, ast.In) else f"(negb {s})"), "bool"
                 # b"x" in value: a one-byte needle in a byte string
                 if td == "bytes" and isinstance(l, ast.Constant) and isinstance(l.value, bytes) and len(l.value) == 1:
                     s = f"(bytes_contains1 {l.value[0]} {d})"
@@ -212,6 +218,22 @@ class FnTranslator:
                 if e.slice.value == 1:
                     return f"(snd {v})", tv[2]
             raise Unsupported(e, "subscript")
+        if isinstance(e, ast.ListComp) and len(e.generators) == 1 and isinstance(e.generators[0].target, ast.Name) \
+                and isinstance(e.elt, ast.Name) and e.elt.id == e.generators[0].target.id \
+                and not e.generators[0].is_async:
+            # [x for x in xs if c1 if c2]: a filter
+            g = e.generators[0]
+            xs, txs = self.expr(g.iter, env)
+            self.want(e, txs, "lstr")
+            v = self.safe(g.target.id)
+            env2 = dict(env)
+            env2[g.target.id] = (v, "str")
+            conds = []
+            for c in g.ifs:
+                a, ta = self.expr(c, env2)
+                self.want(c, ta, "bool")
+                conds.append(a)
+            return f"(filter (fun {v} : string => {' && '.join(conds) or 'true'}) {xs})", "lstr"
         if isinstance(e, ast.Call):
             src = ast.unparse(e.func)
             if src == "time.time" and self.now and not e.args:
@@ -233,6 +255,10 @@ class FnTranslator:
                 a, ta = self.expr(e.args[0].args[0], env)
                 self.want(e, ta, "lZ")
                 return f"(sorted_set {a})", "lZ"
+            if isinstance(e.func, ast.Attribute) and e.func.attr == "isascii" and not e.args:
+                a, ta = self.expr(e.func.value, env)
+                self.want(e, ta, "str")
+                return f"(str_isascii {a})", "bool"
             if isinstance(e.func, ast.Attribute):
                 meth = e.func.attr
                 if meth == "endswith" and len(e.args) == 1:
@@ -665,6 +691,19 @@ def gen_quote(repo: Path) -> str:
     return HEADER.format(src="asimap/utils.py", extra=" Base.Bytes") + tr.translate({})
 
 
+def gen_keywords(repo: Path) -> str:
+    src = repo / "asimap/mbox.py"
+    tree = ast.parse(src.read_text())
+    # the SYSTEM_FLAG_MAP the function consults must be the one of constants.py (Gen/Flags.v)
+    ok = any(isinstance(n, ast.ImportFrom) and n.module == "constants" and n.level == 1
+             and any(a.name == "SYSTEM_FLAG_MAP" and a.asname is None for a in n.names) for n in tree.body)
+    if not ok:
+        raise Unsupported(tree, "mbox.py does not import SYSTEM_FLAG_MAP from .constants")
+    tr = FnTranslator(find_fn(tree, "unstorable_keywords"), {"params": [("flags", "lstr")], "ret": "lstr"},
+                      {"SYSTEM_FLAG_MAP": ("SYSTEM_FLAG_MAP", ("dict", "str"))})
+    return HEADER.format(src="asimap/mbox.py", extra=" Gen.Flags") + tr.translate({})
+
+
 def gen_flags(repo: Path) -> str:
     src = repo / "asimap/constants.py"
     tree = ast.parse(src.read_text())
@@ -698,6 +737,7 @@ TARGETS = {
     "DotStuff": gen_dotstuff,
     "Flags": gen_flags,
     "Quote": gen_quote,
+    "Keywords": gen_keywords,
 }
 
 
